@@ -50,12 +50,14 @@ def run(ck):
     atoms = {e[1] for e in allev if e[0] == 'cond'}
     sets = {(e[1], e[2]) for e in allev if e[0] == 'set'}
     calls = {(e[1], e[2]) for e in allev if e[0] == 'call'}
-    cnt_ok = ('strchr', ('start', "'.'")) in calls and any(l == 'count' and re.fullmatch(r"\(count@L\d+'* \+ 1\)|\(0 \+ 1\)", v) for l, v in sets) \
-        and any(l == 'cp' and re.fullmatch(r"\(strchr#\d+'* \+ 1\)", v) for l, v in sets)
-    r4.instance(f'{site}:count-loop', ok=cnt_ok, wclass='count-loop', what='the dot-counting loop (strchr from start, cp = ch + 1, count++) is not recognised')
-    root_ok = "(end[-1] == '.')" in atoms and any(l == 'count' and re.fullmatch(r"\(.+ - 1\)", v) for l, v in sets)
-    r4.instance(f'{site}:root-dot', ok=root_ok, wclass='root-dot', what='the root-dot adjustment (end[-1] == \'.\' => --count) is not recognised')
-    skips = [a for a in atoms if re.fullmatch(r"\(.*count.* (>=|>) \d+\)", a) and 'strchr' not in a]
+    # the counter is whichever local is incremented by one (names do not matter); the cursor is the local set to result + 1
+    counters = {l for l, v in sets if re.fullmatch(r'\w+', l) and (re.fullmatch(r"\(" + re.escape(l) + r"@L\d+'* \+ 1\)", v) or v == '(0 + 1)')}
+    cnt_ok = ('strchr', ('start', "'.'")) in calls and bool(counters) and any(re.fullmatch(r'\w+', l) and re.fullmatch(r"\(strchr#\d+'* \+ 1\)", v) for l, v in sets)
+    r4.instance(f'{site}:count-loop', ok=cnt_ok, wclass='count-loop', what='the dot-counting loop (strchr from start, cursor = result + 1, counter + 1) is not recognised')
+    root_ok = bool({"(end[-1] == '.')", "(*(end - 1) == '.')", "('.' == end[-1])", "('.' == *(end - 1))"} & atoms) and any(l in counters and re.fullmatch(r"\(.+ - 1\)", v) for l, v in sets)
+    r4.instance(f'{site}:root-dot', ok=root_ok, wclass='root-dot', what='the root-dot adjustment (last byte == \'.\' => counter - 1) is not recognised')
+    cre = '|'.join(re.escape(c) for c in sorted(counters)) or 'count'
+    skips = [a for a in atoms if re.fullmatch(r"\(.*(?:" + cre + r").* (>=|>) \d+\)", a) and 'strchr' not in a]
     ok_skip = bool(skips)
     for a in skips:
         m = re.fullmatch(r"\((.*) (>=|>) (\d+)\)", a); op, K = m.group(2), int(m.group(3))
